@@ -971,3 +971,203 @@ Definition rebuild_single_ok (t : rtemplate) : bool :=
 
 Definition rtemplates_ok (l : list rtemplate) : bool :=
   forallb (fun t => rebuild_from_backbone_ok t && rebuild_single_ok t) l.
+
+(* ---- the default pipeline for ONE residue, at name level ---------------------
+   input names -> patches applied by set_termini (removals, alternate-name renames) ->
+   repair_heavy -> later patches (CYX, pKa states: hydrogens only) -> add_hydrogens ->
+   the optimisation protocol of the residue's kind (any oracle answers) -> cleanup ->
+   HIS.set_state's hydrogen removal -> partition by "the force field has an entry" ->
+   written names.  --clean stops after the first patches and prints every atom;
+   --assign-only skips repair, hydrogens and optimisation. *)
+
+(* Biomolecule.apply_patch on the residue's atoms: patch.remove (if present), then the
+   patch.altnames renames in atom-list order *)
+Record patchfx := mkPF { pf_remove : nl; pf_alt : list (string * string) }.
+
+Fixpoint alt_of (a : string) (l : list (string * string)) : option string :=
+  match l with [] => None | (o, n) :: r => if String.eqb a o then Some n else alt_of a r end.
+
+Definition apply_patchfx (w : W) (p : patchfx) : option W :=
+  fold_left (fun acc r => acc >>= fun w' => if has r w' then rm r w' else Some w') (pf_remove p) (Some w) >>= fun w1 =>
+  fold_left (fun acc a => acc >>= fun w' => match alt_of a (pf_alt p) with Some n => rn a n w' | None => Some w' end)
+            (w_names w1) (Some w1).
+
+Definition apply_patches (ps : list patchfx) (w : W) : option W :=
+  fold_left (fun acc p => acc >>= fun w' => apply_patchfx w' p) ps (Some w).
+
+Inductive pkind := PNone | PFlip (mv : nl) | PAlc (h : string) | PWat | PCarb (c : carb) (ord lf : bool).
+Inductive plabels := LNone | LFlip (ls : list flabel) | LAlc (ls : list alabel) | LWat (ls : list wlabel)
+                   | LCarb (ls : list clabel) (best : option string).
+Inductive presult := POk (l : nl) | PDisabled | PErr.
+
+Definition after (o : outcome) (k : pst -> outcome) : presult :=
+  match o with
+  | Next s _ => match k s with Next s' _ => POk (names s') | Disabled => PDisabled | Error => PErr end
+  | Disabled => PDisabled
+  | Error => PErr
+  end.
+
+(* the optimisation object of the residue: constructed on the current names, driven by the
+   label list, then completed *)
+Definition proto_stage (k : pkind) (ls : plabels) (l : nl) : presult :=
+  match k, ls with
+  | PNone, _ => POk l
+  | PFlip mv, LFlip x =>
+      match flip_start l mv with
+      | Next s0 _ => after (run _ (flip_step mv) s0 x) (fun s => flip_complete s tt)
+      | Disabled => PDisabled | Error => PErr
+      end
+  | PAlc h, LAlc x =>
+      match alc_start h l with
+      | Next s0 _ => after (run _ (alc_step h) s0 x) (fun s => alc_complete h s tt)
+      | Disabled => PDisabled | Error => PErr
+      end
+  | PWat, LWat x =>
+      match wat_start l with
+      | Next s0 _ => after (run _ wat_step s0 x) (fun s => wat_complete s tt)
+      | Disabled => PDisabled | Error => PErr
+      end
+  | PCarb c ord lf, LCarb x best =>
+      match carb_start c ord lf l with
+      | Next s0 _ => after (run _ (carb_step c) s0 x) (fun s => carb_complete c s best)
+      | Disabled => PDisabled | Error => PErr
+      end
+  | _, _ => PDisabled
+  end.
+
+(* HydrogenRoutines.cleanup for this residue (cl = its carboxylic hydrogens, if ASH/GLH) *)
+Definition cleanup_names (cl : option carb) (l : nl) : nl :=
+  match cl with
+  | Some c => if mem (c_h1 c) l && mem (c_h2 c) l then remove_first (c_h1 c) l else l
+  | None => l
+  end.
+
+(* HIS.set_state of a neutral histidine: Some true = HE2 is removed (if present),
+   Some false = HD1 is removed (if present); None = not a neutral histidine *)
+Definition his_names (his : option bool) (l : nl) : nl :=
+  match his with
+  | Some true => if mem "HE2" l then remove_first "HE2" l else l
+  | Some false => if mem "HD1" l then remove_first "HD1" l else l
+  | None => l
+  end.
+
+Inductive pmode := MFull (opt : bool) | MAssignOnly | MClean.
+
+Inductive pres := PRes (final written unassigned logged : nl) | PFail (why : string).
+
+Definition show_pres (r : pres) : string :=
+  match r with
+  | PRes f w u lg => "OK final=" ++ show_names f ++ " | written=" ++ show_names w ++ " | unassigned=" ++ show_names u ++
+                     " | logged=" ++ show_names lg
+  | PFail why => "FAIL " ++ why
+  end.
+
+Section Pipeline.
+  Variable ref : nl.                              (* final reference names *)
+  Variables feas hfeas : string -> nl -> bool.    (* placement oracles *)
+  Variable entry : string -> bool.                (* the force field has parameters for (ffname, name) *)
+
+  Definition partition (l lg : nl) : pres :=
+    PRes l (filter entry l) (filter (fun x => negb (entry x)) l) lg.
+
+  Definition pipeline_names (mode : pmode) (ps1 ps2 : list patchfx) (any_missing ssb : bool)
+             (k : pkind) (ls : plabels) (cl : option carb) (his : option bool) (ns : nl) : pres :=
+    match apply_patches ps1 (mkW ns []) with
+    | None => PFail "patch (termini)"
+    | Some w0 =>
+        match mode with
+        | MClean => PRes (w_names w0) (w_names w0) [] []
+        | MAssignOnly =>
+            match apply_patches ps2 w0 with
+            | None => PFail "patch (states)"
+            | Some w1 => partition (his_names his (w_names w1)) []
+            end
+        | MFull opt =>
+            match repair_heavy ref feas any_missing (w_names w0) with
+            | RDone w1 lg =>
+                match apply_patches ps2 w1 with
+                | None => PFail "patch (states)"
+                | Some w2 =>
+                    match add_hydrogens ref hfeas ssb w2 with
+                    | None => PFail "add_hydrogens"
+                    | Some w3 =>
+                        let k' := if opt then k else match k with PWat => PWat | _ => PNone end in
+                        match proto_stage k' ls (w_names w3) with
+                        | POk l4 => partition (his_names his (cleanup_names cl l4)) lg
+                        | PDisabled => PFail "oracle stream does not fit the protocol"
+                        | PErr => PFail "protocol error"
+                        end
+                    end
+                end
+            | RValueError m => PFail ("ValueError " ++ show_names m)
+            | ROutOfFuel => PFail "out of fuel"
+            | RAnomaly => PFail "repair anomaly"
+            end
+        end
+    end.
+End Pipeline.
+
+(* ---- statement-level definitions of the end-to-end theorem ------------------- *)
+
+(* the atoms the (final) reference asks for: pseudo atoms N+1 / C-1 excepted; the HG of a
+   bridged cysteine is not built (it stays only if the input had it) *)
+Definition ref_atoms (ref : nl) (ssb : bool) (l0 : nl) : nl :=
+  filter (fun x => negb (is_pseudo x) && negb (ssb && String.eqb x "HG" && negb (mem x l0))) ref.
+
+(* the optimisation actually run: with --noopt only waters are optimised *)
+Definition eff_kind (opt : bool) (k : pkind) : pkind :=
+  if opt then k else match k with PWat => PWat | _ => PNone end.
+
+Definition expected_of (k : pkind) (l : nl) : nl :=
+  match k with
+  | PNone => l
+  | PFlip _ => l
+  | PAlc h => alc_expected h l
+  | PWat => wat_expected l
+  | PCarb c _ _ => (filter (fun x => negb (String.eqb x (c_h1 c)) && negb (String.eqb x (c_h2 c))) l ++ [c_h2 c])%list
+  end.
+
+(* decidable guard on the residue after the terminus patches (l0) *)
+Definition wf_input (ref l0 : nl) (any_missing : bool) : bool :=
+  nodupb l0 && nodupb ref && negb (mem "OP1" l0) && negb (mem "OP2" l0) &&
+  forallb (fun x => negb (is_pseudo x)) l0 &&
+  forallb (fun x => negb (placeholder x)) ref &&
+  (any_missing || (forallb (fun x => mem x ref) l0 &&
+                   match missing_heavy ref l0 with [] => true | _ => false end)).
+
+(* ... and on the protocol parameters, relative to the atoms R present when it starts *)
+Definition wf_kind (k : pkind) (R : nl) : bool :=
+  match k with
+  | PNone => true
+  | PFlip mv => nodupb mv && forallb (fun m => mem m R) mv
+  | PAlc h => negb (placeholder h)
+  | PWat => negb (mem "H2" R) || mem "H1" R
+  | PCarb _ _ _ => false   (* carboxylic: per table instance, see C03_pipeline_carboxylic_partial *)
+  end.
+
+Definition expected_final (opt : bool) (k : pkind) (cl : option carb) (his : option bool) (R : nl) : nl :=
+  his_names his (cleanup_names cl (expected_of (eff_kind opt k) R)).
+
+(* ---- concrete pipeline cases (Generated/C03Pipe.v): default options, nothing missing ---- *)
+Record pcase := mkPC { pc_name : string; pc_ffname : string; pc_ref : nl; pc_ps1 : list patchfx; pc_ns : nl;
+                       pc_ssb : bool; pc_kind : pkind; pc_cl : option carb; pc_his : option bool }.
+
+Definition pcase_expected (c : pcase) : option nl :=
+  match apply_patches (pc_ps1 c) (mkW (pc_ns c) []) with
+  | Some w0 => Some (expected_final true (pc_kind c) (pc_cl c) (pc_his c) (ref_atoms (pc_ref c) (pc_ssb c) (w_names w0)))
+  | None => None
+  end.
+
+(* everything the end-to-end theorem asks of the case, except the force-field entries *)
+Definition pcase_guard (c : pcase) : bool :=
+  match apply_patches (pc_ps1 c) (mkW (pc_ns c) []) with
+  | Some w0 =>
+      wf_input (pc_ref c) (w_names w0) false &&
+      wf_kind (pc_kind c) (ref_atoms (pc_ref c) (pc_ssb c) (w_names w0)) &&
+      match pc_cl c with Some x => is_hyd (c_h1 x) | None => true end
+  | None => false
+  end.
+
+(* the final state of the case is fully parameterised by the predicate *)
+Definition pcase_entries (entry : string -> bool) (c : pcase) : bool :=
+  match pcase_expected c with Some e => forallb entry e | None => false end.
